@@ -26,7 +26,7 @@ def gen_fault(rng, kinds=None) -> dict:
     if kind == "truncate":
         f["cls"] = rng.choice(["zero", "head", "payload", "cdir", "eocd", "minus1", "uniform"])
     if kind in ("bitflip", "overwrite"):
-        f["aim"] = rng.choice(["uniform", "uniform", "local_header", "payload", "cdir"])
+        f["aim"] = rng.choice(["uniform", "uniform", "local_header", "payload", "cdir", "eocd"])
         f["offs"] = [rng.random() for _ in range(f["n"])]
         f["bits"] = [rng.randrange(8) for _ in range(f["n"])]
     return f
@@ -74,6 +74,9 @@ def _aim(data: bytes, aim: str, frac: float) -> int:
         return min(n - 1, off + 30 + fl + int((frac * 7919) % max(cs, 1)))
     if aim == "cdir" and start_dir is not None and start_dir < n:
         return min(n - 1, start_dir + int(frac * (n - start_dir)))
+    if aim == "eocd" and n >= 22:
+        # the end-of-central-directory record: entry counts, directory size and directory offset
+        return n - 22 + int(frac * 22) % 22
     return min(n - 1, int(frac * n))
 
 
@@ -297,11 +300,21 @@ def _apply_container(path: str, f: dict) -> str:
             for n in iwas:
                 z.writestr(zipfile.ZipInfo(n, date_time=(2020, 1, 1, 0, 0, 0)), c.members[n])
         inner = bytearray(buf.getvalue())
-        if f["a"] < 0.5:
+        if f["a"] < 0.3:
             del inner[int(f["b"] * len(inner)) :]
-        else:
+        elif f["a"] < 0.55:
             o = int(f["b"] * len(inner)) % len(inner)
             inner[o] ^= 0xFF
+        elif f["a"] < 0.8:
+            # the inner archive's end-of-central-directory record: bump the directory offset / size / counts
+            field = [(16, 4), (12, 4), (10, 2), (8, 2)][f["n"] % 4]
+            pos = len(inner) - 22 + field[0]
+            val = int.from_bytes(inner[pos : pos + field[1]], "little")
+            val = (val + (1 + f["n"]) * (1 if f["b"] < 0.7 else -1)) % (1 << (8 * field[1]))
+            inner[pos : pos + field[1]] = val.to_bytes(field[1], "little")
+        else:
+            o = len(inner) - 22 + int(f["b"] * 22) % 22
+            inner[o] ^= 1 << (f["n"] % 8)
         outer = io.BytesIO()
         with zipfile.ZipFile(outer, "w") as z:
             z.writestr(zipfile.ZipInfo("Index.zip", date_time=(2020, 1, 1, 0, 0, 0)), bytes(inner))
